@@ -83,6 +83,20 @@ def run(tier, seed):
         for i in range(nseq):
             ops = gen_seq(rng, i, tier)
             jobs[i % W][0].extend(ops)
+        # one more worker on slow storage (every checkpoint commit delayed): asynchronous saving at frequency 1-2, so that save requests arrive
+        # while the previous write is still in flight — cadence, retention and the final save must not depend on how fast the storage is
+        slow_ops = [{"op": "basedir", "path": f"{base}/wslow", "slow_commit": 0.08}]
+        for i in range(nseq, nseq + (3 if tier == "quick" else 12)):
+            seq = gen_seq(rng, i, tier)
+            for op in seq:
+                if op["op"] == "new":
+                    op["async"] = 1; op["f"] = rng.choice([1, 1, 2]); op["_tags"] = ["slow-commit"]
+                if op["op"] == "solve":
+                    op["k"] = min(op["k"], 12)
+                    if "_new" in op:
+                        op["_new"]["async"] = 1
+            slow_ops.extend(seq)
+        jobs.append((slow_ops, 1))
         # 'earliest' explicit step: two-phase is awkward; use step = f (first multiple) which the model resolves identically
         for ops, _ in jobs:
             news = {}
@@ -91,7 +105,7 @@ def run(tier, seed):
                     news[op["dir"]] = op
                 if op["op"] == "restore" and op.get("step") == "earliest":
                     op["step"] = 10 ** 6     # a step that cannot exist: documented failure path of an explicit missing step
-        outs = session.run_sessions_parallel(jobs, workers=W)
+        outs = session.run_sessions_parallel(jobs, workers=W + 1)
     finally:
         shutil.rmtree(base, ignore_errors=True)
     for (ops, d), out in zip(jobs, outs):
@@ -109,6 +123,8 @@ def run(tier, seed):
             case = {"op": {k: v for k, v in op.items() if not k.startswith("_")}, "driver_line": line}
             if o == "new":
                 res.count(f"f={op['f']}"); res.count(f"m={op['m']}"); res.count("async" if op["async"] else "sync"); res.count("solver:" + op["solver"])
+                if "slow-commit" in op.get("_tags", []):
+                    res.count("slow-commit-sequence")
                 continue
             if o == "restore":
                 res.evaluations += 1
